@@ -2190,7 +2190,12 @@ impl<Front: SocketHandler> ConnectionH2<Front> {
                         // (our own initiated streams) since the peer never
                         // initiates streams on a backend connection.
                         let is_closed_stream = if self.position.is_server() {
-                            header.stream_id <= self.highest_peer_stream_id
+                            // Only odd (client-initiated) identifiers can have
+                            // been opened by the peer; an even one was never
+                            // used on this connection (no server push) and is
+                            // idle whatever its value (RFC 9113 §5.1.1).
+                            header.stream_id % 2 == 1
+                                && header.stream_id <= self.highest_peer_stream_id
                         } else {
                             header.stream_id < self.last_stream_id
                         };
@@ -2546,6 +2551,13 @@ impl<Front: SocketHandler> ConnectionH2<Front> {
             }
             (H2State::ClientSettings, Position::Server) => {
                 let i = kawa.storage.data();
+                // RFC 9113 §6.5: a SETTINGS payload that is not a multiple of
+                // 6 octets is a FRAME_SIZE_ERROR. `frame_body` checks this for
+                // later frames; the preface path parses the payload directly,
+                // where `many0` would silently stop at the partial entry.
+                if i.len() % 6 != 0 {
+                    return self.force_disconnect();
+                }
                 let settings = match parser::settings_frame(
                     i,
                     &FrameHeader {
@@ -5750,7 +5762,15 @@ impl<Front: SocketHandler> ConnectionH2<Front> {
             };
             if is_error {
                 error!("{} INVALID SETTING", log_context!(self));
-                return self.goaway(H2Error::ProtocolError);
+                // RFC 9113 §6.5.2: an INITIAL_WINDOW_SIZE above 2^31-1 (or one
+                // that overflows a stream window, §6.9.2) is a connection
+                // error of type FLOW_CONTROL_ERROR; the others PROTOCOL_ERROR.
+                let error = if setting.identifier == parser::SETTINGS_INITIAL_WINDOW_SIZE {
+                    H2Error::FlowControlError
+                } else {
+                    H2Error::ProtocolError
+                };
+                return self.goaway(error);
             }
         }
 
